@@ -362,10 +362,10 @@ def main():
         chk.case("qcd.sym.o%d" % o, case_qcd_symbolic, order=o)
     chk.case("qcd.sym.o4.complex", case_qcd_symbolic, order=4, shape="complex")
     chk.case("qcd.sym.o4.real", case_qcd_symbolic, order=4, shape="real")
-    for nf in ((3, 4, 5, 6) if thorough else (4, 6)):
+    for nf in ((3, 4, 5, 6) if thorough else (4,)):
         for o in (1, 2, 3, 4):
             chk.case("dispatcher.o%d.nf%d" % (o, nf), case_dispatcher, order=o, nf=nf)
-    qed_orders = [(1, 1), (2, 1), (3, 2), (4, 2)] if not thorough else [(q, e) for q in (1, 2, 3, 4) for e in (1, 2)]
+    qed_orders = [(1, 1), (2, 2), (3, 1)] if not thorough else [(q, e) for q in (1, 2, 3, 4) for e in (1, 2)]
     for nf in ((3, 4, 5, 6) if thorough else (5,)):
         for od in qed_orders:
             for sv in ("a1", "mu2_to"):
